@@ -42,6 +42,8 @@ def setup(rep, tier):
     rep.minimum('R16.4', 5)
     rep.minimum('R16.5', 4)
     rep.minimum('R16.6', 3)
+    rep.minimum('R16.7', 2)
+    rep.minimum('R16.8', 8)
 
 
 def _pos_key(f):
@@ -486,7 +488,120 @@ def r16_6(rep, prog):
     T.t_err(rep, 'R16.6', prog, f, {'opus_packet_extensions_parse', 'opus_packet_extensions_generate'}, {}, prog.config + ':')
 
 
+class _Renamed:
+    """report adapter: records another module's rule under this property's rule id"""
+    def __init__(self, rep, rule):
+        self._rep, self._rule = rep, rule
+        self.functions = rep.functions
+
+    def holds(self, rule, *a, **k):
+        self._rep.holds(self._rule, *a, **k)
+
+    def violated(self, rule, *a, **k):
+        self._rep.violated(self._rule, *a, **k)
+
+    def unresolved(self, rule, *a, **k):
+        self._rep.unresolved(self._rule, *a, **k)
+
+
+def _chain(n):
+    """`a = b = c = rhs` -> ([a, b, c], rhs)"""
+    lvs = []
+    while sx.kind(n) == 'assign':
+        lvs.append(sx.strip_paren(n[1]))
+        n = sx.strip_paren(n[2])
+    return lvs, n
+
+
+def _iter_fields_assigned(f, rec='OpusExtensionIterator'):
+    """field -> list of final right-hand sides (chained assignments flattened)"""
+    out = {}
+    inner = set()
+    for _, s in f.stmts():
+        for n in sx.walk(s):
+            if n[0] == 'assign' and id(n) not in inner:
+                lvs, rhs = _chain(n)
+                m = n
+                while sx.kind(m) == 'assign':
+                    inner.add(id(m))
+                    m = sx.strip_paren(m[2])
+                for lv in lvs:
+                    if sx.kind(lv) == 'field' and lv[2] == rec:
+                        out.setdefault(lv[3], []).append((rhs, [x[3] for x in lvs if sx.kind(x) == 'field']))
+            elif n[0] in ('cassign', 'inc'):
+                lv = sx.strip_paren(n[2] if n[0] == 'cassign' else n[3])
+                if sx.kind(lv) == 'field' and lv[2] == rec:
+                    out.setdefault(lv[3], []).append((None, [lv[3]]))
+            elif n[0] == 'addr':
+                lv = sx.strip_paren(n[1])
+                if sx.kind(lv) == 'field' and lv[2] == rec:
+                    out.setdefault(lv[3], []).append((None, [lv[3]]))
+    return out
+
+
+def r16_8(rep, prog):
+    """iterator reset re-establishes the initial cursor: every field that
+    iteration mutates is re-assigned by opus_extension_iterator_reset with the
+    value opus_extension_iterator_init gives it, except the repeat-replay
+    fields that are (re)assigned together whenever a repeat is armed"""
+    need = ('opus_extension_iterator_init', 'opus_extension_iterator_reset', 'opus_extension_iterator_next')
+    if not all(prog.has_fn(n) for n in need):
+        rep.unresolved('R16.8', 'iterator functions not found')
+        return
+    init, reset = prog.fn(need[0]), prog.fn(need[1])
+    rep.functions.update(need)
+    A = _iter_fields_assigned(init)
+    B = _iter_fields_assigned(reset)
+    mut = {}
+    for f in prog.functions_all:
+        if f.name in (need[0], need[1], 'opus_extension_iterator_set_frame_max') or not f.file.endswith('extensions.c'):
+            continue
+        for fld, lst in _iter_fields_assigned(f).items():
+            mut.setdefault(fld, []).append(f.name)
+    if len(mut) < 6:
+        rep.unresolved('R16.8', 'only %d iterator fields are mutated by iteration' % len(mut))
+        return
+    # repeat-replay fields: armed together with repeat_frame
+    armed = set()
+    for f in prog.functions_all:
+        if not f.file.endswith('extensions.c'):
+            continue
+        cf = cfgm.CFG(f)
+        for b in cf.blocks:
+            flds = {}
+            for s_ in cf.blocks[b]['stmts']:
+                for n in sx.walk(s_):
+                    if n[0] == 'assign':
+                        lvs, rhs = _chain(n)
+                        for lv in lvs:
+                            if sx.kind(lv) == 'field' and lv[2] == 'OpusExtensionIterator':
+                                flds[lv[3]] = rhs
+            if 'repeat_frame' in flds and sx.int_val(flds['repeat_frame']) is None:
+                armed = set(flds) if not armed else (armed & set(flds))
+    for fld in sorted(mut):
+        inst = '%s:iterator field %s (mutated by %s) is re-initialised by reset' % (prog.config, fld, sorted(set(mut[fld]))[0])
+        where = reset.where()
+        if fld in B:
+            ia = A.get(fld)
+            if not ia:
+                rep.violated('R16.8', inst, where, 'reset assigns it but init does not', key='reset:' + fld)
+                continue
+            (irhs, igroup), (rrhs, rgroup) = ia[0], B[fld][0]
+            same = sx.key(irhs) == sx.key(rrhs) or (sx.kind(rrhs) == 'field' and rrhs[3] in igroup)
+            if same:
+                rep.holds('R16.8', inst, where, 'reset: %s, init: %s' % (sx.show(rrhs), sx.show(irhs)))
+            else:
+                rep.violated('R16.8', inst, where, 'reset gives it `%s` but a fresh iterator has `%s`' % (sx.show(rrhs), sx.show(irhs)), key='reset-value:' + fld)
+        elif fld in armed and fld != 'repeat_frame':
+            rep.holds('R16.8', inst + ' (not needed)', where, 'assigned in the same block as every arming of repeat_frame (%s): dead while repeat_frame == 0' % sorted(armed))
+        else:
+            rep.violated('R16.8', inst, where, 'iteration changes %s but reset leaves the stale value; a rewound iterator differs from a fresh one' % fld, key='reset:' + fld)
+
+
 def check(rep, prog, tier):
+    from . import c07
+    c07.r07_5(_Renamed(rep, 'R16.7'), prog)
+    r16_8(rep, prog)
     r16_1(rep, prog)
     r16_2(rep, prog)
     r16_3(rep, prog)
